@@ -93,6 +93,9 @@ func (n *Node) src(sb *strings.Builder) {
 			f.Node.src(sb)
 		}
 		sb.WriteString("})")
+		if n.Derive != 0 {
+			fmt.Fprintf(sb, "/*then replaced by %s*/", []string{"", "s.Pick(all keys...)", "s.Omit()", "s.Extend(z.Schema{})", "s.Pick(map of all keys)"}[n.Derive])
+		}
 		if n.ViaMerge {
 			fmt.Fprintf(sb, "/*assembled as part1.Merge(part2, part3) two=%v, cuts(fields,tests,posts)=%v; afterwards part1.Merge(inert) is built and dropped*/", n.MergeTwo, n.MergeCuts)
 		}
